@@ -16,6 +16,28 @@ class BudgetExhausted(Exception):
     """wall-clock budget of one harness configuration used up -> the configuration is undecided (exit 2), never a verdict"""
 
 
+def _vars_of(t, limit=64):
+    """ids of the uninterpreted constants of a term (bounded walk)"""
+    out = set()
+    todo = [t]
+    seen = set()
+    while todo and len(seen) < 4000:
+        x = todo.pop()
+        i = x.get_id()
+        if i in seen:
+            continue
+        seen.add(i)
+        if z3.is_app(x):
+            if x.num_args() == 0:
+                if x.decl().kind() == z3.Z3_OP_UNINTERPRETED:
+                    out.add(i)
+                    if len(out) > limit:
+                        return out
+            else:
+                todo.extend(x.children())
+    return out
+
+
 class Infeasible(Exception):
     """current path condition unsatisfiable"""
 
@@ -121,7 +143,8 @@ class Path:
         return res
 
     def entailed(self, cond):
-        """does the path condition imply cond?  (solver query, cached per path-condition length; unknown counts as no)"""
+        """is cond implied by the conditions already decided on this path that talk about the same variables?  A small separate
+        query over recorded literals only (cheap and repeatable; a subset of the path condition, so a yes is sound; unknown = no)"""
         c = z3.simplify(cond)
         if z3.is_true(c):
             return True
@@ -130,11 +153,30 @@ class Path:
         cache = self.__dict__.setdefault('entail_cache', {})
         k = (c.get_id(), len(self.pc))
         if k not in cache:
-            self.solver.push()
-            self.solver.add(z3.Not(c))
-            r = self.solver.check()
-            self.solver.pop()
-            cache[k] = (r == z3.unsat, c)
+            vs = _vars_of(c)
+            hyps = []
+            small = self.__dict__.setdefault('small_pc', [])      # (index in pc, variables) of the small conjuncts of the path condition
+            start = small[-1][0] + 1 if small else 0
+            for i in range(start, len(self.pc)):
+                parts = [self.pc[i]]
+                flat = []
+                while parts:
+                    t = parts.pop()
+                    if z3.is_app(t) and t.decl().kind() == z3.Z3_OP_AND and len(flat) + len(parts) < 400:
+                        parts.extend(t.children())
+                    else:
+                        flat.append(t)
+                for t in flat:
+                    tv = _vars_of(t, 8)
+                    small.append((i, tv if 0 < len(tv) <= 4 else None, t))
+            for i, tv, t in small:
+                if tv is not None and tv & vs:
+                    hyps.append(t)
+            s = z3.Solver()
+            s.set('timeout', 2000)
+            s.add(*hyps[:200])
+            s.add(z3.Not(c))
+            cache[k] = (s.check() == z3.unsat, c)
         return cache[k][0]
 
     def few_values(self, iv, k=16):
